@@ -28,6 +28,11 @@ package pub
 // C05: cc is a Create-like value whose object is exactly [oo] and whose actor is exactly [aa]
 //@ specfun wrapsObject(cc, oo, aa) = cc != nil && props[cc]["ActivityStreamsObject"] != nil && props[cc]["ActivityStreamsObject"].Len() == 1 && props[cc]["ActivityStreamsObject"].At(0).GetType() == oo && props[cc]["ActivityStreamsActor"] != nil && props[cc]["ActivityStreamsActor"].Len() == 1 && props[cc]["ActivityStreamsActor"].At(0).IsIRI() && props[cc]["ActivityStreamsActor"].At(0).GetIRI() == aa
 
+// C03: value t carries no hidden recipients; activity x and every value embedded in its 'object' carry none
+//@ specfun strippedVal(t) = (implements(t, "pub.btoer") ==> props[t]["ActivityStreamsBto"] == nil) && (implements(t, "pub.bccer") ==> props[t]["ActivityStreamsBcc"] == nil)
+//@ specfun stripped(x) = props[x]["ActivityStreamsBto"] == nil && props[x]["ActivityStreamsBcc"] == nil && (props[x]["ActivityStreamsObject"] != nil ==> (forall j Int :: {props[x]["ActivityStreamsObject"].At(j)} 0 <= j && j < props[x]["ActivityStreamsObject"].Len() ==> strippedVal(props[x]["ActivityStreamsObject"].At(j).GetType())))
+//@ specfun plen(p) = p == nil ? 0 : p.Len()
+
 // The DelegateActor that baseActor talks to is taken to be the library's sideEffectActor;
 // a custom delegate (NewCustomActor) is assumed to meet the same contracts.
 //@ iface pub.DelegateActor.PostInboxRequestBodyHook satisfies (*pub.sideEffectActor).PostInboxRequestBodyHook
@@ -78,7 +83,7 @@ package pub
 //@ [C10] ensures error_unwritten: result0 && result1 != nil ==> libWrote == 0
 //@ [C10] ensures one_status: result0 && result1 == nil ==> wrote == 1
 //@ [C10] ensures disabled_405: r.Method == "POST" && isASMedia(old(hdr)[r.Header]["Content-Type"]) && !b.enableFederatedProtocol ==> result0 && result1 == nil && status == 405
-//@ modifies $db, authed, cleared, typeUnknown, lacksId, lastBlocked, reqMissing, wrote, libWrote, status, sentHdr, bodyWrites, hdr, bufstr, H:net/url.URL.Host, H:net/url.URL.Scheme, A:Int, A:Iface, nDeliver, nNewID, actIdTick
+//@ modifies $db, authed, cleared, typeUnknown, lacksId, lastBlocked, reqMissing, wrote, libWrote, status, sentHdr, bodyWrites, hdr, bufstr, H:net/url.URL.Host, H:net/url.URL.Scheme, A:Int, A:Iface, nDeliver, nNewID, actIdTick, leak
 //@ [C10] at call streams.ToType#1: ghost typeUnknown = isUnmatched($res1)
 //@ [C10] at call pub.Activity.GetJSONLDId#1: ghost lacksId = $res0 == nil || $res0.Get() == nil
 //@ [C10] at call pub.DelegateActor.PostInbox#1: ghost reqMissing = $res0 == pub.ErrObjectRequired || $res0 == pub.ErrTargetRequired
@@ -103,7 +108,7 @@ package pub
 //@ [C10] ensures not_handled: !result0 ==> wrote == 0 && result1 == nil
 //@ [C10] ensures error_unwritten: result0 && result1 != nil ==> libWrote == 0
 //@ [C10] ensures one_status: result0 && result1 == nil ==> wrote == 1
-//@ modifies $db, authed, cleared, typeUnknown, lacksId, lastBlocked, reqMissing, wrote, libWrote, status, sentHdr, bodyWrites, hdr, bufstr, H:net/url.URL.Host, H:net/url.URL.Scheme, A:Int, A:Iface, nDeliver, nNewID, actIdTick
+//@ modifies $db, authed, cleared, typeUnknown, lacksId, lastBlocked, reqMissing, wrote, libWrote, status, sentHdr, bodyWrites, hdr, bufstr, H:net/url.URL.Host, H:net/url.URL.Scheme, A:Int, A:Iface, nDeliver, nNewID, actIdTick, leak
 
 //@ func (*pub.baseActor).PostOutboxScheme
 //@ params b, c, w, r, scheme
@@ -121,7 +126,7 @@ package pub
 //@ [C10] ensures error_unwritten: result0 && result1 != nil ==> libWrote == 0
 //@ [C10] ensures one_status: result0 && result1 == nil ==> wrote == 1
 //@ [C10] ensures disabled_405: r.Method == "POST" && isASMedia(old(hdr)[r.Header]["Content-Type"]) && !b.enableSocialProtocol ==> result0 && result1 == nil && status == 405
-//@ modifies $db, authed, cleared, typeUnknown, lacksId, lastBlocked, reqMissing, newId, wrote, libWrote, status, sentHdr, bodyWrites, hdr, bufstr, H:net/url.URL.Host, H:net/url.URL.Scheme, A:Int, A:Iface, nSetOutbox, nDeliver, nNewID, actIdTick, snapV, snapP, snapIRI
+//@ modifies $db, authed, cleared, typeUnknown, lacksId, lastBlocked, reqMissing, newId, wrote, libWrote, status, sentHdr, bodyWrites, hdr, bufstr, H:net/url.URL.Host, H:net/url.URL.Scheme, A:Int, A:Iface, nSetOutbox, nDeliver, nNewID, actIdTick, snapV, snapP, snapIRI, leak
 //@ [C10] at call streams.ToType#1: ghost typeUnknown = isUnmatched($res1)
 //@ [C10] at call (*pub.baseActor).deliver#1: ghost reqMissing = $res1 == pub.ErrObjectRequired || $res1 == pub.ErrTargetRequired
 //@ [C10] at call (*pub.baseActor).deliver#1: ghost newId = $res0.GetJSONLDId().Get()
@@ -129,6 +134,7 @@ package pub
 //@ [C10] ensures required_missing_400: reqMissing ==> result0 && result1 == nil && status == 400
 //@ [C10] ensures created_201: result0 && result1 == nil && libWrote == 1 && b.enableSocialProtocol && !typeUnknown && !reqMissing ==> status == 201 && sentHdr["Location"] == str(newId)
 //@ [C10] ensures library_status: libWrote == 1 ==> status == 405 || status == 400 || status == 201
+//@ [C03] ensures no_hidden_payload: leak == old(leak)
 
 //@ func (*pub.baseActor).PostOutbox
 //@ params b, c, w, r
@@ -143,7 +149,8 @@ package pub
 //@ [C10] ensures not_handled: !result0 ==> wrote == 0 && result1 == nil
 //@ [C10] ensures error_unwritten: result0 && result1 != nil ==> libWrote == 0
 //@ [C10] ensures one_status: result0 && result1 == nil ==> wrote == 1
-//@ modifies $db, authed, cleared, typeUnknown, lacksId, lastBlocked, reqMissing, newId, wrote, libWrote, status, sentHdr, bodyWrites, hdr, bufstr, H:net/url.URL.Host, H:net/url.URL.Scheme, A:Int, A:Iface, nSetOutbox, nDeliver, nNewID, actIdTick, snapV, snapP, snapIRI
+//@ modifies $db, authed, cleared, typeUnknown, lacksId, lastBlocked, reqMissing, newId, wrote, libWrote, status, sentHdr, bodyWrites, hdr, bufstr, H:net/url.URL.Host, H:net/url.URL.Scheme, A:Int, A:Iface, nSetOutbox, nDeliver, nNewID, actIdTick, snapV, snapP, snapIRI, leak
+//@ [C03] ensures no_hidden_payload: leak == old(leak)
 
 //@ func (*pub.baseActor).GetInbox
 //@ params b, c, w, r
@@ -201,7 +208,7 @@ package pub
 //@ [C08] requires unlocked: held == emp
 //@ [C08] ensures unlocked: held == emp
 //@ [C07] requires authed: authed
-//@ modifies $db, A:Int, A:Iface, nSetOutbox, nDeliver, nNewID, actIdTick, snapV, snapP, snapIRI
+//@ modifies $db, A:Int, A:Iface, nSetOutbox, nDeliver, nNewID, actIdTick, snapV, snapP, snapIRI, leak
 //@ [C11] ensures id_set: err == nil ==> activity != nil && activity.GetJSONLDId() != nil && activity.GetJSONLDId().Get() != nil
 //@ [C11] at call pub.DelegateActor.PostOutbox#1: assume!post id_stable: activity.GetJSONLDId() == old(activity.GetJSONLDId()) && activity.GetJSONLDId().Get() == old(activity.GetJSONLDId().Get())
 //@ [C11] at call pub.DelegateActor.Deliver#1: assume!post id_stable: activity.GetJSONLDId() == old(activity.GetJSONLDId()) && activity.GetJSONLDId().Get() == old(activity.GetJSONLDId().Get())
@@ -212,6 +219,7 @@ package pub
 //@ [C05] ensures at_most_once: nSetOutbox <= old(nSetOutbox) + 1
 //@ [C05] at call pub.DelegateActor.PostOutbox#1: assume!post id_stable: activity.GetJSONLDId() == old(activity.GetJSONLDId()) && activity.GetJSONLDId().Get() == old(activity.GetJSONLDId().Get())
 //@ [C05] at call pub.DelegateActor.Deliver#1: assume!post id_stable: activity.GetJSONLDId() == old(activity.GetJSONLDId()) && activity.GetJSONLDId().Get() == old(activity.GetJSONLDId().Get())
+//@ [C03] ensures no_hidden_payload: leak == old(leak)
 
 //@ func (*pub.baseActorFederating).Send
 //@ params b, c, outbox, t
@@ -221,9 +229,10 @@ package pub
 //@ [C08] requires unlocked: held == emp
 //@ [C08] ensures unlocked: held == emp
 //@ [C07] requires authed: authed
-//@ modifies $db, A:Int, A:Iface, nSetOutbox, nDeliver, nNewID, actIdTick, snapV, snapP, snapIRI
+//@ modifies $db, A:Int, A:Iface, nSetOutbox, nDeliver, nNewID, actIdTick, snapV, snapP, snapIRI, leak
 //@ [C05] ensures accepted_is_listed_once: result1 == nil ==> nSetOutbox == old(nSetOutbox) + 1
 //@ [C05] ensures delivery_implies_listed_once: nDeliver != old(nDeliver) ==> nSetOutbox == old(nSetOutbox) + 1
+//@ [C03] ensures no_hidden_payload: leak == old(leak)
 
 // ---------------------------------------------------------------- side_effect_actor.go
 //@ func (*pub.sideEffectActor).AuthenticatePostInbox
@@ -323,7 +332,7 @@ package pub
 //@ [C08] requires unlocked: held == emp
 //@ [C08] ensures unlocked: held == emp
 //@ [C07] requires authed: authed && cleared
-//@ modifies $db, A:Int, A:Iface, nDeliver, nNewID, actIdTick
+//@ modifies $db, A:Int, A:Iface, nDeliver, nNewID, actIdTick, leak
 //@ [C11] requires has_id: activity.GetJSONLDId() != nil
 //@ [C11] requires has_actor: activity.GetActivityStreamsActor() != nil
 //@ [C11] ensures id_kept: activity.GetJSONLDId() == old(activity.GetJSONLDId())
@@ -337,7 +346,7 @@ package pub
 //@ [C08] requires unlocked: held == emp
 //@ [C08] ensures unlocked: held == emp
 //@ [C07] requires authed: authed && cleared
-//@ modifies $db, A:Int, A:Iface, nDeliver
+//@ modifies $db, A:Int, A:Iface, nDeliver, leak
 //@ loop 4 [C09] invariant unlocked: held == emp
 //@ loop 4 [C08] invariant unlocked: held == emp
 //@ loop 4 [C09] invariant nothing_deferred: deferredUnlock == emp
@@ -385,7 +394,8 @@ package pub
 //@ [C08] requires unlocked: held == emp
 //@ [C08] ensures unlocked: held == emp
 //@ [C07] requires authed: authed
-//@ modifies $db, A:Int, A:Iface, nDeliver
+//@ modifies $db, A:Int, A:Iface, nDeliver, leak
+//@ [C03] ensures no_hidden_payload: leak == old(leak)
 
 //@ func (*pub.sideEffectActor).WrapInCreate
 //@ params a, c, obj, outboxIRI
@@ -404,7 +414,8 @@ package pub
 //@ params a, c, boxIRI, activity, recipients
 //@ [C11] requires a != nil && a.common != nil && activity != nil
 //@ [C07] requires authed: authed
-//@ modifies eff, appCalls, nDeliver
+//@ modifies eff, appCalls, nDeliver, leak
+//@ [C03] ensures no_hidden_payload: old(stripped(activity)) ==> leak == old(leak)
 
 //@ func (*pub.sideEffectActor).addToOutbox
 //@ params a, c, outboxIRI, activity
@@ -467,6 +478,27 @@ package pub
 //@ modifies $db, A:Int, A:Iface
 //@ loop 6 [C09] invariant unlocked: held == emp
 //@ loop 6 [C08] invariant unlocked: held == emp
+//@ [C03] ensures stripped_on_success: err == nil ==> stripped(activity)
+//@ loop 1 [C03x] invariant length: to == props[activity]["ActivityStreamsTo"] && len(r) == 0 + (iter == nil ? to.Len() : ipos(iter))
+//@ loop 1 [C03x] invariant segment0: (forall j Int :: {r[0 + j]} 0 <= j && j < (iter == nil ? to.Len() : ipos(iter)) ==> r[0 + j] == elemId(props[activity]["ActivityStreamsTo"].At(j)))
+//@ loop 1 [C03x] invariant position: iter != nil ==> iter == to.At(ipos(iter)) && iparent(iter) == to && ilen(iter) == to.Len()
+//@ loop 2 [C03x] invariant length: bto == props[activity]["ActivityStreamsBto"] && len(r) == plen(props[activity]["ActivityStreamsTo"]) + (iter == nil ? bto.Len() : ipos(iter))
+//@ loop 2 [C03x] invariant segment0: (forall j Int :: {r[plen(props[activity]["ActivityStreamsTo"]) + j]} 0 <= j && j < (iter == nil ? bto.Len() : ipos(iter)) ==> r[plen(props[activity]["ActivityStreamsTo"]) + j] == elemId(props[activity]["ActivityStreamsBto"].At(j)))
+//@ loop 2 [C03x] invariant position: iter != nil ==> iter == bto.At(ipos(iter)) && iparent(iter) == bto && ilen(iter) == bto.Len()
+//@ loop 3 [C03x] invariant length: cc == props[activity]["ActivityStreamsCc"] && len(r) == plen(props[activity]["ActivityStreamsTo"]) + plen(props[activity]["ActivityStreamsBto"]) + (iter == nil ? cc.Len() : ipos(iter))
+//@ loop 3 [C03x] invariant segment0: (forall j Int :: {r[plen(props[activity]["ActivityStreamsTo"]) + plen(props[activity]["ActivityStreamsBto"]) + j]} 0 <= j && j < (iter == nil ? cc.Len() : ipos(iter)) ==> r[plen(props[activity]["ActivityStreamsTo"]) + plen(props[activity]["ActivityStreamsBto"]) + j] == elemId(props[activity]["ActivityStreamsCc"].At(j)))
+//@ loop 3 [C03x] invariant segment1: (forall j Int :: {r[plen(props[activity]["ActivityStreamsTo"]) + j]} 0 <= j && j < plen(props[activity]["ActivityStreamsBto"]) ==> r[plen(props[activity]["ActivityStreamsTo"]) + j] == elemId(props[activity]["ActivityStreamsBto"].At(j)))
+//@ loop 3 [C03x] invariant position: iter != nil ==> iter == cc.At(ipos(iter)) && iparent(iter) == cc && ilen(iter) == cc.Len()
+//@ loop 4 [C03x] invariant length: bcc == props[activity]["ActivityStreamsBcc"] && len(r) == plen(props[activity]["ActivityStreamsTo"]) + plen(props[activity]["ActivityStreamsBto"]) + plen(props[activity]["ActivityStreamsCc"]) + (iter == nil ? bcc.Len() : ipos(iter))
+//@ loop 4 [C03x] invariant segment0: (forall j Int :: {r[plen(props[activity]["ActivityStreamsTo"]) + plen(props[activity]["ActivityStreamsBto"]) + plen(props[activity]["ActivityStreamsCc"]) + j]} 0 <= j && j < (iter == nil ? bcc.Len() : ipos(iter)) ==> r[plen(props[activity]["ActivityStreamsTo"]) + plen(props[activity]["ActivityStreamsBto"]) + plen(props[activity]["ActivityStreamsCc"]) + j] == elemId(props[activity]["ActivityStreamsBcc"].At(j)))
+//@ loop 4 [C03x] invariant segment1: (forall j Int :: {r[plen(props[activity]["ActivityStreamsTo"]) + j]} 0 <= j && j < plen(props[activity]["ActivityStreamsBto"]) ==> r[plen(props[activity]["ActivityStreamsTo"]) + j] == elemId(props[activity]["ActivityStreamsBto"].At(j)))
+//@ loop 4 [C03x] invariant position: iter != nil ==> iter == bcc.At(ipos(iter)) && iparent(iter) == bcc && ilen(iter) == bcc.Len()
+//@ loop 5 [C03x] invariant length: audience == props[activity]["ActivityStreamsAudience"] && len(r) == plen(props[activity]["ActivityStreamsTo"]) + plen(props[activity]["ActivityStreamsBto"]) + plen(props[activity]["ActivityStreamsCc"]) + plen(props[activity]["ActivityStreamsBcc"]) + (iter == nil ? audience.Len() : ipos(iter))
+//@ loop 5 [C03x] invariant segment0: (forall j Int :: {r[plen(props[activity]["ActivityStreamsTo"]) + plen(props[activity]["ActivityStreamsBto"]) + plen(props[activity]["ActivityStreamsCc"]) + plen(props[activity]["ActivityStreamsBcc"]) + j]} 0 <= j && j < (iter == nil ? audience.Len() : ipos(iter)) ==> r[plen(props[activity]["ActivityStreamsTo"]) + plen(props[activity]["ActivityStreamsBto"]) + plen(props[activity]["ActivityStreamsCc"]) + plen(props[activity]["ActivityStreamsBcc"]) + j] == elemId(props[activity]["ActivityStreamsAudience"].At(j)))
+//@ loop 5 [C03x] invariant segment1: (forall j Int :: {r[plen(props[activity]["ActivityStreamsTo"]) + j]} 0 <= j && j < plen(props[activity]["ActivityStreamsBto"]) ==> r[plen(props[activity]["ActivityStreamsTo"]) + j] == elemId(props[activity]["ActivityStreamsBto"].At(j)))
+//@ loop 5 [C03x] invariant segment2: (forall j Int :: {r[plen(props[activity]["ActivityStreamsTo"]) + plen(props[activity]["ActivityStreamsBto"]) + plen(props[activity]["ActivityStreamsCc"]) + j]} 0 <= j && j < plen(props[activity]["ActivityStreamsBcc"]) ==> r[plen(props[activity]["ActivityStreamsTo"]) + plen(props[activity]["ActivityStreamsBto"]) + plen(props[activity]["ActivityStreamsCc"]) + j] == elemId(props[activity]["ActivityStreamsBcc"].At(j)))
+//@ loop 5 [C03x] invariant position: iter != nil ==> iter == audience.At(ipos(iter)) && iparent(iter) == audience && ilen(iter) == audience.Len()
+//@ [C03x] at call pub.filterURLs#1: assert hidden_recipients_collected_before_stripping: (forall j Int :: {$arg0[plen(props[activity]["ActivityStreamsTo"]) + j]} 0 <= j && j < plen(props[activity]["ActivityStreamsBto"]) ==> $arg0[plen(props[activity]["ActivityStreamsTo"]) + j] == elemId(props[activity]["ActivityStreamsBto"].At(j))) && (forall j Int :: {$arg0[plen(props[activity]["ActivityStreamsTo"]) + plen(props[activity]["ActivityStreamsBto"]) + plen(props[activity]["ActivityStreamsCc"]) + j]} 0 <= j && j < plen(props[activity]["ActivityStreamsBcc"]) ==> $arg0[plen(props[activity]["ActivityStreamsTo"]) + plen(props[activity]["ActivityStreamsBto"]) + plen(props[activity]["ActivityStreamsCc"]) + j] == elemId(props[activity]["ActivityStreamsBcc"].At(j))) && props == old(props)
 
 //@ func (*pub.sideEffectActor).resolveActors
 //@ params a, c, t, r, depth, maxDepth
@@ -567,10 +599,11 @@ package pub
 //@ [C08] requires unlocked: held == emp
 //@ [C08] ensures unlocked: held == emp
 //@ [C07] requires authed: authed && cleared
-//@ modifies $db, A:Int, A:Iface, nDeliver, nNewID, actIdTick
+//@ modifies $db, A:Int, A:Iface, nDeliver, nNewID, actIdTick, leak
 //@ [C08] at call Database.Update#1: assert same_hold: held[srcKey[followers]] && srcEpoch[followers] == epoch[srcKey[followers]]
 //@ [C10] ensures object_required: old(a.GetActivityStreamsObject() == nil || a.GetActivityStreamsObject().Len() == 0) ==> result == pub.ErrObjectRequired && eff == old(eff)
 //@ [C11] requires has_actor: a.GetActivityStreamsActor() != nil
+//@ [C03] ensures no_hidden_payload: leak == old(leak)
 
 //@ func (pub.FederatingWrappedCallbacks).accept
 //@ params w, c, a
@@ -1023,6 +1056,12 @@ package pub
 //@ params activity
 //@ [C11] requires activity != nil
 //@ modifies ASH, ASHP, props
+//@ [C03] ensures stripped: stripped(activity)
+//@ [C03] ensures only_hidden_slots_cleared: forall v Iface, k String :: {props[v][k]} (k != "ActivityStreamsBto" && k != "ActivityStreamsBcc" ==> props[v][k] == old(props[v][k])) && (props[v][k] == old(props[v][k]) || props[v][k] == nil)
+//@ loop 1 [C03] invariant top_cleared: props[activity]["ActivityStreamsBto"] == nil && props[activity]["ActivityStreamsBcc"] == nil && op == props[activity]["ActivityStreamsObject"] && op != nil
+//@ loop 1 [C03] invariant only_hidden_slots_cleared: forall v Iface, k String :: {props[v][k]} (k != "ActivityStreamsBto" && k != "ActivityStreamsBcc" ==> props[v][k] == old(props[v][k])) && (props[v][k] == old(props[v][k]) || props[v][k] == nil)
+//@ loop 1 [C03] invariant position: iter != nil ==> iter == op.At(ipos(iter)) && iparent(iter) == op && ilen(iter) == op.Len()
+//@ loop 1 [C03] invariant cleared_so_far: forall j Int :: {op.At(j)} 0 <= j && j < (iter == nil ? op.Len() : ipos(iter)) ==> strippedVal(op.At(j).GetType())
 
 //@ func pub.mustHaveActivityOriginMatchObjects
 //@ params a
